@@ -101,6 +101,10 @@ func runMuxStruct(c *mon.Ctx, prop string) {
 			ops = reservedPIDScenario(r)
 			c.Count("histories_asking_for_streams_on_reserved_pids")
 		}
+		if i%16 == 3 {
+			ops = wrapPMTScenario(r)
+			c.Count("histories_with_a_pmt_of_65536_bytes")
+		}
 		if i%16 == 2 {
 			// a rejected call, repaired on the same adaptation field object, and repeated
 			ops = retryScenario(r)
